@@ -24,6 +24,8 @@ def render(ast, dm):
         return "config[%s]" % ast[1] if dm == "promela" else "In('%s')" % ast[1]
     if k == "not":
         return ("!(%s)" if dm == "promela" else "not (%s)") % render(ast[1], dm)
+    if k == "evname":
+        return "_event.name"
     a, b = render(ast[1], dm), render(ast[2], dm)
     ops = {"add": "+", "sub": "-", "lt": "<", "le": "<=", "eq": "=="}
     if k in ops:
@@ -406,6 +408,12 @@ class Gen(object):
             meta = {}
             if self.dm != "null":
                 ast = self.int_expr()
+                top = blk
+                while top.tag in ("if", "elseif", "else"):
+                    top = top.parent
+                if self.dm == "lua" and top.tag == "transition" and "event" in top.attrs and top.parent.tag in ("state", "parallel", "scxml") and r.random() < 0.3:
+                    # content of a transition that only an event can trigger: the event it sees must be the one consumed
+                    ast = ("evname",)
                 at["expr"] = render(ast, self.dm)
                 meta["expr_ast"] = ast
             blk.add(El("log", at, **meta))
@@ -648,6 +656,9 @@ def parse_expr(text, dm):
                 j += 1
             toks.append(("num", int(text[i:j])))
             i = j
+        elif text.startswith("_event.name", i):
+            toks.append(("id", "_event.name"))
+            i += len("_event.name")
         elif c.isalpha() or c == "_":
             j = i
             while j < len(text) and (text[j].isalnum() or text[j] == "_"):
@@ -709,6 +720,8 @@ def parse_expr(text, dm):
                     a = (BIN[op[1]], a, b)
                 assert nxt() == ")"
                 return ("not", a)
+            if t[1] == "_event.name":
+                return ("evname",)
             if t[1] == "true":
                 return ("true",)
             if t[1] == "false":
